@@ -630,6 +630,7 @@ func famProbe(o *corr.Out, n int) {
 	famCancelBeforeInvoke(o)
 	famPublishAfterRelease(o)
 	famQueuedUnary(o)
+	famOverlappingInvokes(o)
 	famHandlerFlush(o)
 	famSoftCancelTokens(o)
 	famLate(o, n/4+2)
@@ -1079,6 +1080,30 @@ func famQueuedUnary(o *corr.Out) {
 			}
 			finish(o, sc)
 		}
+	}
+}
+
+// famOverlappingInvokes: a unary call is cancelled while it is still marshalling its request (it
+// holds the connection's request buffer); the next unary call starts before that marshalling ends,
+// on a transport slow enough that its frames go out one by one.  The second call must carry its own
+// request.
+func famOverlappingInvokes(o *corr.Out) {
+	for _, l := range []int{9, 300} {
+		sc := &scenario{cfg: Config{Soft: true, WBuf: 1}, class: "overlapping-invokes"}
+		sc.do("inv!u1!1!r1.s1:1.x!" + fmt.Sprint(l) + "!7") // sizes the shared buffer
+		sc.do(fmt.Sprintf("invp!u2!2!r1.s1:1.x!%d!1", l))
+		sc.do("can!1")
+		sc.do("flow!0")
+		sc.do(fmt.Sprintf("inv!u3!3!r1.s1:1.x!%d!3", l))
+		sc.do("mrel!u2")
+		pumpAll(sc)
+		sc.do("flow!1")
+		if got := sc.results()["u3"]; got != "ok:3/2/0/1" && !strings.HasSuffix(sc.obs[len(sc.obs)-1], "X1]") {
+			o.Oracle("C02:isolation", sc.request(), fmt.Sprintf("u3=%q (want its own response ok:3/2/0/1)", got))
+		} else {
+			o.OracleOK("C02:isolation")
+		}
+		finish(o, sc)
 	}
 }
 
